@@ -95,6 +95,12 @@ theorem safe_bind {α β} {m : M α} {f : α → M β} (hm : Safe m) (hf : ∀ a
   | ok a => exact h.trans (hf a s')
   | error e => exact h
 
+/-- Nothing runs after a throw. -/
+theorem safe_throw_bind {α β} (e : Fault) (f : α → M β) : Safe ((throw e : M α) >>= f) := by
+  intro s; rw [run_bind, run_throw]; exact Step.refl s
+theorem safe_err_bind {α β} (f : α → M β) : Safe ((err : M α) >>= f) := safe_throw_bind _ f
+theorem safe_hostPanic_bind {α β} (f : α → M β) : Safe ((hostPanic : M α) >>= f) := safe_throw_bind _ f
+
 /-- After `get` the bound value *is* the current state. -/
 theorem safe_get_bind {β} {f : St → M β} (hf : ∀ s, Step s ((f s).run s).2) : Safe (get >>= f) := by
   intro s
@@ -387,6 +393,7 @@ macro "safe_step" : tactic => `(tactic| first
   | split
   | with_reducible (first
     | exact safe_pure _ | exact safe_err | exact safe_hostPanic | exact safe_throw _ | exact safe_get
+    | exact safe_err_bind _ | exact safe_hostPanic_bind _ | exact safe_throw_bind _ _
     | exact safe_pushData _ | exact safe_popData | exact safe_popN _ | exact safe_incPc | exact safe_jumpTo _
     | exact safe_capture | exact safe_wrangleOptargs _ _ | exact safe_popScope | exact safe_popScopes _
     | exact safe_popToMark _ _ _ | exact safe_setInScope _ _ _ | exact safe_bindTop _ _ | exact safe_restore _
@@ -472,5 +479,461 @@ theorem closingNow_sub (s : St) : ∀ id ∈ idsOf (closingNow s), id ∈ idsOf 
   split at hid
   · exact aboveBoundary_sub s s.linear id hid
   · exact hid
+
+/-! ## The mutual block -/
+
+structure AllSafe (fuel : Nat) : Prop where
+  run : Safe (run fuel)
+  runLoop : ∀ st, Safe (runLoop fuel st)
+  exec : ∀ i, Safe (exec fuel i)
+  evalCallExpr : ∀ e, Safe (evalCallExpr fuel e)
+  nested : ∀ f st, Safe (nested fuel f st)
+  prepareArgs : ∀ f i es, Safe (prepareArgs fuel f i es)
+  callResolved : ∀ f args, Safe (callResolved fuel f args)
+  callUser : ∀ name n, Safe (callUser fuel name n)
+  builtin : ∀ name args, Safe (builtin fuel name args)
+  applyFn : ∀ f args, Safe (applyFn fuel f args)
+  mapArr : ∀ f r i n, Safe (mapArr fuel f r i n)
+  mapList : ∀ f l, Safe (mapList fuel f l)
+  forceLazy : ∀ id, Safe (forceLazy fuel id)
+
+theorem safe_modify_same' (f : St → St) (h : ∀ s, (f s).scopes = s.scopes ∧ (f s).fns = s.fns ∧
+    (f s).linear = s.linear ∧ (f s).suspended = s.suspended ∧ (f s).lazies = s.lazies) : Safe (modify f) :=
+  safe_modify_same f (fun s => (h s).1) (fun s => (h s).2.1) (fun s => (h s).2.2.1) (fun s => (h s).2.2.2.1)
+    (fun s => (h s).2.2.2.2)
+
+macro "safe_ih" ih:ident : tactic => `(tactic| repeat' (first
+  | safe_step
+  | with_reducible (first
+    | exact ($ih).run | exact ($ih).runLoop _ | exact ($ih).exec _ | exact ($ih).evalCallExpr _
+    | exact ($ih).nested _ _ | exact ($ih).prepareArgs _ _ _ | exact ($ih).callResolved _ _
+    | exact ($ih).callUser _ _ | exact ($ih).builtin _ _ | exact ($ih).applyFn _ _
+    | exact ($ih).mapArr _ _ _ _ | exact ($ih).mapList _ _ | exact ($ih).forceLazy _
+    | exact safe_callFunction _ _)
+  | exact safe_modify_same' _ (fun _ => ⟨rfl, rfl, rfl, rfl, rfl⟩)
+  | (dsimp only; safe_step)))
+
+/-- state-level leaf: a `set` of an update that leaves the tables alone -/
+macro "set_same" : tactic => `(tactic| (simp only [run_set, run_bind, run_pure, run_modify]; exact Step.of_same rfl rfl rfl rfl rfl))
+
+
+/-- state-level leaf: a `set` of an update that leaves the tables alone -/
+macro "set_same" : tactic => `(tactic| (simp only [run_set, run_bind, run_pure, run_modify]; exact Step.of_same rfl rfl rfl rfl rfl))
+
+theorem safe_exec_succ (n : Nat) (ih : AllSafe n) (i : Instr) : Safe (exec (n+1) i) := by
+  cases i with
+  | pop =>
+    simp only [VM.exec]
+    apply safe_get_bind; intro s
+    split
+    · exact to_safe safe_incPc s
+    · exact Step.refl s
+    · set_same
+  | ret =>
+    simp only [VM.exec]
+    apply safe_get_bind; intro s
+    split
+    · exact Step.refl s
+    · exact Step.refl s
+    · set_same
+  | addScope =>
+    simp only [VM.exec]
+    intro s; rw [run_modify]
+    exact Step.of_addScope {} rfl rfl rfl rfl rfl
+  | addFuncScope t =>
+    simp only [VM.exec]
+    intro s; rw [run_modify]
+    exact Step.of_addScope { isFunction := true, myFunction := some t } rfl rfl rfl rfl rfl
+  | createClosure t =>
+    simp only [VM.exec]
+    refine safe_bind safe_incPc (fun _ => ?_)
+    apply safe_get_bind; intro s
+    try dsimp only
+    rw [run_bind, run_set]
+    refine Step.trans ?_ (safe_pushData _ _)
+    exact Step.of_addFn _ rfl rfl rfl rfl rfl (fun w id hid => w.linear id (closingNow_sub s id hid))
+  | pushLazy e =>
+    simp only [VM.exec]
+    apply safe_get_bind; intro s
+    rw [run_bind, run_set]
+    try dsimp only
+    refine Step.trans (b := _) ?_ (to_safe (m := do pushData (.lazy s.lazies.length); incPc) ?_ _)
+    · exact Step.of_addLazy { e, stack := s.linear, curfunc := s.curfunc, value := none } rfl rfl rfl rfl rfl (fun w => w.linear)
+    · safe_ih ih
+  | push v => simp only [VM.exec]; safe_ih ih
+  | dup => simp only [VM.exec]; safe_ih ih
+  | envToStack x => simp only [VM.exec]; safe_ih ih
+  | popStackPutEnv x => simp only [VM.exec]; safe_ih ih
+  | update x => simp only [VM.exec]; safe_ih ih
+  | callArr k => simp only [VM.exec]; safe_ih ih
+  | callExpr c a => simp only [VM.exec]; safe_ih ih
+  | jump o => simp only [VM.exec]; safe_ih ih
+  | goto l => simp only [VM.exec]; safe_ih ih
+  | branch d o => simp only [VM.exec]; safe_ih ih
+  | removeScope => simp only [VM.exec]; safe_ih ih
+  | prepareCall x k => simp only [VM.exec]; safe_ih ih
+  | loopStart l => simp only [VM.exec]; safe_ih ih
+  | label => simp only [VM.exec]; safe_ih ih
+  | pushMark l => simp only [VM.exec]; safe_ih ih
+  | popUntilMark l => simp only [VM.exec]; safe_ih ih
+  | clearMark l => simp only [VM.exec]; safe_ih ih
+  | brk l k => simp only [VM.exec]; safe_ih ih
+  | cont l k => simp only [VM.exec]; safe_ih ih
+  | assign => simp only [VM.exec]; safe_ih ih
+
+
+theorem mkFunction_run (name : String) (code : List Instr) (closing : List (Option Nat)) (parent : Option Nat) (s : St) :
+    (mkFunction name code closing parent).run s =
+      (.ok s.fns.length, { s with fns := s.fns ++ [({ name, code, closing, parent } : FnObj)] }) := rfl
+
+variable (hC : ∀ isFn c e, GenOK (compile isFn c e))
+
+theorem safe_run_succ (n : Nat) (ih : AllSafe n) : Safe (run (n+1)) := by
+  simp only [VM.run]; safe_ih ih
+
+theorem safe_runLoop_succ (n : Nat) (ih : AllSafe n) (st : CtlState) : Safe (runLoop (n+1) st) := by
+  simp only [VM.runLoop]
+  apply safe_get_bind
+  intro s
+  split
+  · exact Step.refl s
+  · split
+    · exact Step.refl s
+    · rename_i instr hi
+      try dsimp only
+      rw [run_bind, run_set]
+      have hstep := ih.exec instr s
+      rcases hr : (exec n instr).run s with ⟨r1, s1⟩
+      rw [hr] at hstep
+      dsimp only
+      refine hstep.trans (to_safe ?_ s1)
+      safe_ih ih
+
+include hC in
+theorem safe_evalCallExpr_succ (n : Nat) (ih : AllSafe n) (e : Expr) : Safe (evalCallExpr (n+1) e) := by
+  unfold ZygoVerif.VM.evalCallExpr
+  split
+  · safe_ih ih
+  · refine safe_bind safe_get (fun s0 => ?_)
+    refine safe_bind (safe_runGen _ (hC _ _ _)) (fun p => ?_)
+    obtain ⟨code, t⟩ := p
+    dsimp only
+    split
+    · exact safe_pure _
+    · refine safe_bind safe_capture (fun st => ?_)
+      apply safe_get_bind; intro s
+      rw [run_bind, mkFunction_run]
+      refine Step.trans (b := _) ?_ (to_safe (m := do modify (fun s => { s with pc := -2 }); nested n s.fns.length st) ?_ _)
+      · exact Step.of_addFn _ rfl rfl rfl rfl rfl (fun w id hid => w.linear id (closingNow_sub s id hid))
+      · safe_ih ih
+
+theorem safe_nested_succ (n : Nat) (ih : AllSafe n) (f : Nat) (st : CtlState) : Safe (nested (n+1) f st) := by
+  simp only [VM.nested]
+  apply safe_get_bind; intro s
+  try dsimp only
+  rw [run_bind, run_set]
+  have hm : Safe (do callFunction f 0; run n : M Val) := safe_bind (safe_callFunction _ _) (fun _ => ih.run)
+  have hstep := hm s
+  rcases hr : (do callFunction f 0; run n : M Val).run s with ⟨r1, s1⟩
+  rw [hr] at hstep
+  dsimp only
+  refine hstep.trans (to_safe ?_ s1)
+  safe_ih ih
+
+theorem safe_prepareArgs_succ (n : Nat) (ih : AllSafe n) (f : Option FnObj) (i : Nat) (es : List Expr) :
+    Safe (prepareArgs (n+1) f i es) := by
+  cases es with
+  | nil => simp only [VM.prepareArgs]; exact safe_pure _
+  | cons e es =>
+    unfold ZygoVerif.VM.prepareArgs
+    refine safe_ite ?_ ?_
+    · apply safe_get_bind; intro s
+      rw [run_bind, run_set]
+      refine Step.trans (b := _) ?_
+        (to_safe (m := do let r ← pushData (.lazy s.lazies.length); prepareArgs n f (i + 1) es) ?_ _)
+      · exact Step.of_addLazy { e, stack := s.linear, curfunc := s.curfunc, value := none } rfl rfl rfl rfl rfl
+          (fun w => w.linear)
+      · safe_ih ih
+    · safe_ih ih
+
+/-- the `guarded` wrapper of `CallResolved`, and the same shape elsewhere: run `m` from the
+current state, keep its state, continue on its result. -/
+theorem step_run_set {α β} (m : M α) (hm : Safe m) (k : Except Fault α → M β) (hk : ∀ r, Safe (k r)) (s : St) :
+    Step s ((do set (m.run s).2; k (m.run s).1 : M β).run s).2 := by
+  rw [run_bind, run_set]
+  have hstep := hm s
+  generalize m.run s = p at hstep ⊢
+  obtain ⟨r1, s1⟩ := p
+  exact hstep.trans (hk r1 s1)
+
+theorem safe_callResolved_succ (n : Nat) (ih : AllSafe n) (f : Val) (args : List Expr) :
+    Safe (callResolved (n+1) f args) := by
+  unfold ZygoVerif.VM.callResolved
+  refine safe_bind safe_get (fun s0 => ?_)
+  have guarded : ∀ (m : M Unit), Safe m → Safe (do
+      let s ← get
+      let r : Except Fault Unit × St := m.run s
+      set r.2
+      match r.1 with
+      | .ok _ => pure ()
+      | .error .err => do modify (fun s => { s with data := truncate s.data s0.data.length }); throw .err
+      | .error flt => throw flt : M Unit) := by
+    intro m hm
+    apply safe_get_bind; intro s
+    dsimp only
+    rw [run_bind, run_set]
+    have hstep := hm s
+    generalize m.run s = p at hstep ⊢
+    obtain ⟨r1, s1⟩ := p
+    dsimp only
+    refine hstep.trans (to_safe ?_ s1)
+    safe_ih ih
+  dsimp only
+  split
+  · exact guarded _ (by safe_ih ih)
+  · exact guarded _ (by safe_ih ih)
+  · exact guarded _ (by safe_ih ih)
+  · safe_ih ih
+
+theorem safe_callUser_succ (n : Nat) (ih : AllSafe n) (name : String) (nargs : Nat) :
+    Safe (callUser (n+1) name nargs) := by
+  unfold ZygoVerif.VM.callUser
+  refine safe_bind safe_get (fun s0 => ?_)
+  dsimp only
+  split
+  · exact safe_err_bind _
+  split
+  · exact safe_hostPanic_bind _
+  refine safe_bind (safe_popN _) (fun args => ?_)
+  refine safe_bind safe_capture (fun st => ?_)
+  refine safe_bind (safe_modify_same' _ (fun _ => ⟨rfl, rfl, rfl, rfl, rfl⟩)) (fun _ => ?_)
+  apply safe_get_bind; intro s
+  try dsimp only
+  rw [run_bind, run_set]
+  have hstep := ih.builtin name args s
+  generalize (builtin n name args).run s = p at hstep ⊢
+  obtain ⟨r1, s1⟩ := p
+  dsimp only
+  refine hstep.trans (to_safe ?_ s1)
+  split
+  · refine safe_bind (safe_pushData _) (fun _ => ?_)
+    apply safe_get_bind; intro s2
+    split
+    · split
+      · set_same
+      · exact Step.refl _
+    · set_same
+  · exact safe_throw _
+  · safe_ih ih
+
+theorem safe_allocRet (vs : List Val) : Safe (do
+    let s ← get
+    let (a, h) := s.heap.alloc vs
+    set { s with heap := h }
+    pure a : M Val) := by
+  apply safe_get_bind; intro s
+  split
+  set_same
+
+theorem safe_primCall (name : String) (args : List Val) : Safe (do
+    let s ← get
+    match prim name args s.heap with
+    | some (v, h) => set { s with heap := h }; pure v
+    | none => err : M Val) := by
+  apply safe_get_bind; intro s
+  split
+  · set_same
+  · exact Step.refl s
+
+theorem safe_builtin_succ (n : Nat) (ih : AllSafe n) (name : String) (args : List Val) :
+    Safe (builtin (n+1) name args) := by
+  unfold ZygoVerif.VM.builtin
+  repeat' (first
+    | with_reducible exact safe_allocRet _
+    | exact safe_primCall _ _
+    | (safe_ih ih; done)
+    | split
+    | refine safe_bind ?_ (fun _ => ?_))
+
+/-- `Apply` hands the arguments over: pushed on the data stack, a lazy position wrapped in an
+already forced lazy object whose scope stack is empty. -/
+theorem step_applyWrap (fo : FnObj) (args : List Val) (s : St) (i : Nat) :
+    Step s (args.foldl (fun (p : St × Nat) v =>
+      if fo.isLazyCallArg p.2 then
+        ({ p.1 with lazies := p.1.lazies ++ [({ e := .nilLit, stack := [], curfunc := 0, value := some v } : LazyObj)],
+                    data := some (.lazy p.1.lazies.length) :: p.1.data }, p.2 + 1)
+      else ({ p.1 with data := some v :: p.1.data }, p.2 + 1)) (s, i)).1 := by
+  induction args generalizing s i with
+  | nil => exact Step.refl s
+  | cons v rest ih =>
+    simp only [List.foldl_cons]
+    split
+    · refine Step.trans ?_ (ih _ _)
+      exact Step.of_addLazy { e := .nilLit, stack := [], curfunc := 0, value := some v } rfl rfl rfl rfl rfl
+        (fun _ id hid => by simp [idsOf] at hid)
+    · refine Step.trans ?_ (ih _ _)
+      exact Step.of_same rfl rfl rfl rfl rfl
+
+theorem safe_applyFn_succ (n : Nat) (ih : AllSafe n) (f : Val) (args : List Val) :
+    Safe (applyFn (n+1) f args) := by
+  unfold ZygoVerif.VM.applyFn
+  split
+  · exact ih.builtin _ _
+  · rename_i id
+    refine safe_bind safe_capture (fun st => ?_)
+    refine safe_bind (safe_modify_same' _ (fun _ => ⟨rfl, rfl, rfl, rfl, rfl⟩)) (fun _ => ?_)
+    apply safe_get_bind; intro s
+    dsimp only
+    rw [run_bind, run_set]
+    refine Step.trans (step_applyWrap (fnOf s id) args s 0) ?_
+    generalize (List.foldl _ (s, 0) args).1 = s1
+    refine to_safe ?_ s1
+    apply safe_get_bind; intro s2
+    try dsimp only
+    rw [run_bind, run_set]
+    have hm : Safe (do callFunction id args.length; run n : M Val) := safe_bind (safe_callFunction _ _) (fun _ => ih.run)
+    have hstep := hm s2
+    generalize (do callFunction id args.length; run n : M Val).run s2 = p at hstep ⊢
+    obtain ⟨r1, s3⟩ := p
+    dsimp only
+    refine hstep.trans (to_safe ?_ s3)
+    safe_ih ih
+  · exact safe_err
+
+theorem safe_mapArr_succ (n : Nat) (ih : AllSafe n) (f : Val) (r i k : Nat) : Safe (mapArr (n+1) f r i k) := by
+  unfold ZygoVerif.VM.mapArr
+  safe_ih ih
+
+theorem safe_mapList_succ (n : Nat) (ih : AllSafe n) (f : Val) (l : Val) : Safe (mapList (n+1) f l) := by
+  unfold ZygoVerif.VM.mapList
+  safe_ih ih
+
+/-! ### `Force`: safety relative to "lazy object `id` still has the scope stack `stk`" -/
+
+def LazyHas (id : Nat) (stk : List (Option Nat)) (s : St) : Prop := (s.lazies[id]?).map (·.stack) = some stk
+
+theorem LazyHas.stable {id : Nat} {stk : List (Option Nat)} {s s' : St} (h : LazyHas id stk s) (e : Ext s s') :
+    LazyHas id stk s' := by
+  unfold LazyHas at h ⊢
+  have hlt : id < s.lazies.length := by
+    cases hg : s.lazies[id]? with
+    | none => simp [hg] at h
+    | some z => exact (List.getElem?_eq_some_iff.mp hg).1
+  rw [e.lazyStack id hlt]; exact h
+
+theorem LazyHas.bounded {id : Nat} {stk : List (Option Nat)} {s : St} (h : LazyHas id stk s) (w : WF s) :
+    ∀ j ∈ idsOf stk, j < s.scopes.length := by
+  unfold LazyHas at h
+  cases hg : s.lazies[id]? with
+  | none => simp [hg] at h
+  | some z =>
+    simp only [hg, Option.map_some, Option.some.injEq] at h
+    rw [← h]
+    exact w.lazies z (List.mem_of_getElem? hg)
+
+def SafeP {α} (P : St → Prop) (m : M α) : Prop := ∀ s, P s → Step s (m.run s).2
+
+theorem safeP_of_safe {α} {P : St → Prop} {m : M α} (h : Safe m) : SafeP P m := fun s _ => h s
+
+theorem safeP_bind {α β} {P : St → Prop} (hstab : ∀ s s', P s → Ext s s' → P s') {m : M α} {f : α → M β}
+    (hm : SafeP P m) (hf : ∀ a, SafeP P (f a)) : SafeP P (m >>= f) := by
+  intro s hp
+  rw [run_bind]
+  have h := hm s hp
+  generalize m.run s = p at h ⊢
+  obtain ⟨r, s'⟩ := p
+  cases r with
+  | ok a => exact h.trans (hf a s' (hstab s s' hp h.1))
+  | error e => exact h
+
+theorem safeP_finish (id : Nat) (lz : LazyObj) (v : Val) :
+    SafeP (LazyHas id lz.stack) (do
+      modify (fun s => { s with lazies := s.lazies.set id ({ lz with value := some v } : LazyObj) })
+      pure v : M Val) := by
+  intro s hp
+  simp only [run_bind, run_modify, run_pure]
+  have hlt : id < s.lazies.length := by
+    unfold LazyHas at hp
+    cases hg : s.lazies[id]? with
+    | none => simp [hg] at hp
+    | some z => exact (List.getElem?_eq_some_iff.mp hg).1
+  refine Step.of_scopes_same rfl (Nat.le_refl _) (fun _ _ => ⟨rfl, rfl⟩) (fun w => w.linear) (fun w => w.suspended)
+    (fun w => w.closing) (fun w z hz => ?_) (by simp) (fun i hi => ?_)
+  · rcases List.mem_or_eq_of_mem_set hz with hz | hz
+    · exact w.lazies z hz
+    · subst hz; exact hp.bounded w
+  · by_cases hi' : i = id
+    · subst hi'
+      unfold LazyHas at hp
+      simp [List.getElem?_set_self hlt, hp]
+    · simp [List.getElem?_set_ne (Ne.symm hi')]
+
+include hC in
+theorem safe_forceLazy_succ (n : Nat) (ih : AllSafe n) (id : Nat) : Safe (forceLazy (n+1) id) := by
+  unfold ZygoVerif.VM.forceLazy
+  apply safe_get_bind; intro s0
+  split
+  · exact Step.refl s0
+  · rename_i lz hlz
+    split
+    · exact Step.refl s0
+    · have hp : LazyHas id lz.stack s0 := by unfold LazyHas; simp [hlz]
+      have hstab : ∀ s s', LazyHas id lz.stack s → Ext s s' → LazyHas id lz.stack s' := fun _ _ h e => h.stable e
+      refine (?_ : SafeP (LazyHas id lz.stack) _) s0 hp
+      refine safeP_bind hstab (safeP_of_safe (safe_runGen _ (hC _ _ _))) (fun p => ?_)
+      obtain ⟨code, t⟩ := p
+      dsimp only
+      split
+      · exact safeP_finish id lz _
+      · refine safeP_bind hstab ?_ (fun f => ?_)
+        · intro s hps
+          rw [mkFunction_run]
+          exact Step.of_addFn _ rfl rfl rfl rfl rfl (fun w => hps.bounded w)
+        · refine safeP_bind hstab (safeP_of_safe safe_capture) (fun st => ?_)
+          refine safeP_bind hstab ?_ (fun _ => ?_)
+          · intro s hps
+            rw [run_modify]
+            refine Step.of_scopes_same rfl (Nat.le_refl _) (fun _ _ => ⟨rfl, rfl⟩) (fun w => hps.bounded w)
+              (fun w l hl => ?_) (fun w => w.closing) (fun w => w.lazies)
+            rcases List.mem_cons.mp hl with rfl | hl
+            · exact w.linear
+            · exact w.suspended l hl
+          · exact safeP_bind hstab (safeP_of_safe (ih.nested _ _)) (fun v => safeP_finish id lz v)
+
+theorem allSafe_zero : AllSafe 0 where
+  run := by unfold ZygoVerif.VM.run; exact safe_throw _
+  runLoop := fun _ => by unfold ZygoVerif.VM.runLoop; exact safe_throw _
+  exec := fun _ => by unfold ZygoVerif.VM.exec; exact safe_throw _
+  evalCallExpr := fun _ => by unfold ZygoVerif.VM.evalCallExpr; exact safe_throw _
+  nested := fun _ _ => by unfold ZygoVerif.VM.nested; exact safe_throw _
+  prepareArgs := fun _ _ es => by unfold ZygoVerif.VM.prepareArgs; exact safe_throw _
+  callResolved := fun _ _ => by unfold ZygoVerif.VM.callResolved; exact safe_throw _
+  callUser := fun _ _ => by unfold ZygoVerif.VM.callUser; exact safe_throw _
+  builtin := fun _ _ => by unfold ZygoVerif.VM.builtin; exact safe_throw _
+  applyFn := fun _ _ => by unfold ZygoVerif.VM.applyFn; exact safe_throw _
+  mapArr := fun _ _ _ _ => by unfold ZygoVerif.VM.mapArr; exact safe_throw _
+  mapList := fun _ _ => by unfold ZygoVerif.VM.mapList; exact safe_throw _
+  forceLazy := fun _ => by unfold ZygoVerif.VM.forceLazy; exact safe_throw _
+
+include hC in
+/-- Every function of the VM's mutual block, at every fuel, from every state: a `Step`. -/
+theorem allSafe : ∀ fuel, AllSafe fuel
+  | 0 => allSafe_zero
+  | n+1 =>
+    have ih := allSafe n
+    { run := safe_run_succ n ih
+      runLoop := safe_runLoop_succ n ih
+      exec := safe_exec_succ n ih
+      evalCallExpr := safe_evalCallExpr_succ hC n ih
+      nested := safe_nested_succ n ih
+      prepareArgs := safe_prepareArgs_succ n ih
+      callResolved := safe_callResolved_succ n ih
+      callUser := safe_callUser_succ n ih
+      builtin := safe_builtin_succ n ih
+      applyFn := safe_applyFn_succ n ih
+      mapArr := safe_mapArr_succ n ih
+      mapList := safe_mapList_succ n ih
+      forceLazy := safe_forceLazy_succ hC n ih }
+
 
 end ZygoVerif.Scope
